@@ -28,7 +28,10 @@ func c16Second() *dsl.Config {
 	c.Types = []string{"Gamma", "Delta", "Alpha"}
 	c.Sort = false
 	c.Exclude = []string{"Gamma.KT"}
-	c.Computed = []string{"Alpha.Name"}
+	c.Computed = []string{"Alpha.Name", "Shared.Label", "Gamma.Deep.Inner.Tiny.N"}
+	// a YAML-only switch whose effect depends on a list that may arrive by either channel
+	c.UseStateForUnknown = true
+	c.PlanModifiers = map[string][]string{"Shared.Label": {dsl.TFX + ".PM(61)"}}
 	c.Required = []string{"Shared.ID", "Delta.Only"}
 	c.Sensitive = []string{"Tiny.On"}
 	c.DefaultPkg = "example.com/other/types"
@@ -99,7 +102,7 @@ func checkC16(r *Run) int {
 		yc := cfg.Clone()
 		var params []string
 		// non-dual options always travel in YAML
-		for _, k := range []string{"time_type", "duration_type", "suffixes", "use_state_for_unknown_by_default"} {
+		for _, k := range []string{"time_type", "duration_type", "suffixes", "use_state_for_unknown_by_default", "plan_modifiers"} {
 			only[k] = true
 		}
 		for i, o := range opts {
